@@ -7,11 +7,13 @@
      exactness     both accept, observable differs               -> continue from the model's post-state
 -/
 import Cgp.Drive.Gw
+import Cgp.Drive.Tk
 open Cgp Cgp.Tok
 
 inductive World where
   | none
   | gw (s : Cgp.Drive.Gw.GwS)
+  | tk (s : Cgp.Drive.Tk.TkS)
 
 structure Out where
   obs : String
@@ -21,14 +23,17 @@ def World.step (w : World) (t : List String) : World × Out :=
   match w with
   | .none => (w, ⟨"parse-error:no-scenario", "parse-error"⟩)
   | .gw s => let (s', o) := Cgp.Drive.Gw.step s t; (.gw s', ⟨o.obs, o.kind⟩)
+  | .tk s => let (s', o) := Cgp.Drive.Tk.step s t; (.tk s', ⟨o.obs, o.kind⟩)
 
 def World.known : World → List String
   | .none => []
   | .gw _ => Cgp.Drive.Gw.known
+  | .tk _ => Cgp.Drive.Tk.known
 
 def newWorld (cluster : String) : World :=
   match cluster with
   | "gw" => .gw {}
+  | "tk" => .tk {}
   | _ => .none
 
 structure RunAcc where
